@@ -544,7 +544,7 @@ def run_unit(prop, unit, tier, seed, log):
         # a function whose only failures are labelled clauses still has its body obligation open: the labelled
         # failure already reports it
         unl = [x for x in msgs]
-        named_in_fn = any(a <= ln <= b for ln in ids if ids[ln] in failed_ids)
+        named_in_fn = any(a <= ln <= b for ln in ids if ids[ln] in failed_ids and ids[ln].startswith(prop + '.'))
         st = 'failed' if (unl and not named_in_fn) else ('discharged' if not unl else 'failed-with-named')
         if st == 'failed-with-named':
             st = 'discharged-modulo-named'
